@@ -209,7 +209,7 @@ func genC17(c *RunCtx) []*Batch {
 	b := &Batch{Prop: "C17", Name: "in_overlap_direct", Imports: opsImports, CaseType: "op_case", ChkFn: "chk_op", OutFn: "out_op"}
 	sizes := [][2]int{{0, 0}, {0, 1}, {1, 0}, {1, 1}, {2, 3}, {49, 50}, {50, 49}, {50, 50}, {99, 0}, {0, 99}, {99, 1}, {1, 99}, {100, 0}, {0, 100},
 		{300, 5}, {5, 300}, {60, 60}, {120, 130}, {98, 1}, {1, 98}, {10, 89}, {10, 90}, {90, 10}, {51, 49}}
-	reps := c.N(8, 400)
+	reps := c.N(24, 400)
 	toStr := func(l []int64) []string {
 		s := make([]string, len(l))
 		for i, v := range l {
